@@ -307,7 +307,10 @@ struct Outcome {
 
 /// Ticks with yields a waking thread gets to return from `wake()` while the
 /// executor keeps draining.
-const STUCK_TICKS: u64 = if cfg!(miri) { 400_000 } else { 8_000_000 };
+const STUCK_TICKS: u64 = if cfg!(miri) { 400_000 } else { 500_000 };
+/// Native: after this many rounds every further round also sleeps 100 us, so the watchdog is >= 40 s of an otherwise
+/// idle owner, not a few hundred milliseconds of spinning (a descheduled OS thread must not trip it).
+const FAST_ROUNDS: u64 = 100_000;
 /// Owner yields without any change before wakers count as blocked.
 // (Miri: crossbeam's push backs off with up to 64 `spin_loop` hints — each a yield in Miri — per spuriously failed
 // weak CAS, failure rate 0.8: a healthy wake() can need hundreds of scheduler turns.)
@@ -402,6 +405,9 @@ fn run_program(p: &Program) -> Outcome {
         // ---- concurrent phase: wakers are waking, the owner runs
         while w.done.load(SeqCst) < target {
             iter += 1;
+            if !cfg!(miri) && iter > FAST_ROUNDS {
+                thread::sleep(std::time::Duration::from_micros(100));
+            }
             if iter > STUCK_TICKS {
                 out.stuck = true;
                 let msg = format!(
